@@ -490,6 +490,20 @@ func (w *metaWorld) checkGarbage(after string) {
 			}
 		}
 		for id := range want {
+			// (a virtual parent of size-split parts cannot be removed on its own: its records go with
+			// its last child, and the collector is not handed such an ID — it may be omitted)
+			splitParent := false
+			if u.Specs[id] != nil && u.Specs[id].Virtual {
+				for _, cs := range u.Specs {
+					if cs != nil && cs.Parent == id && cs.ECRule < 0 {
+						splitParent = true
+					}
+				}
+			}
+			if !got[cn][id] && splitParent {
+				r.Probe("marked virtual split parent omitted from the garbage listing")
+				continue
+			}
 			if !got[cn][id] {
 				r.Failf("garbage", "garbage misses a marked object", "after %s: GetGarbage misses marked o%d/c%d\nmodel: %s", after, id, cn, m.Describe())
 			}
